@@ -7,6 +7,7 @@ import (
 	"fmt"
 	"net/url"
 	"sort"
+	"strconv"
 	"strings"
 	"testing"
 
@@ -257,6 +258,14 @@ func reencode(t *rapid.T, path string) (string, bool) {
 
 	for i := 0; i < len(path); i++ {
 		c := path[i]
+		if c == '%' && i+2 < len(path) {
+			// an escape that is already there (the encoded slash) stays as it is
+			sb.WriteString(path[i : i+3])
+			i += 2
+
+			continue
+		}
+
 		if c == '/' || rapid.IntRange(0, 3).Draw(t, "enc") != 0 {
 			sb.WriteByte(c)
 
@@ -363,6 +372,13 @@ func TestReencodingIsInvisible(t *testing.T) {
 
 		base := genBasePath(t, rules)
 
+		// in a third of the cases the path carries an encoded slash as well: re-encoding the unreserved characters
+		// around it must neither hide it from the checks nor change how it is treated
+		withSlash := rapid.IntRange(0, 2).Draw(t, "withEncodedSlash") == 0
+		if withSlash {
+			base = insertSlash(t, base, rapid.Bool().Draw(t, "lowerCaseHex"))
+		}
+
 		bo, _, err := observe(w, entry, base)
 		if err != nil {
 			t.Fatalf("harness: %v", err)
@@ -407,6 +423,7 @@ func TestReencodingIsInvisible(t *testing.T) {
 			vkit.S.Label(fmt.Sprintf("reenc.base_status=%d", bo.Status))
 			vkit.S.LabelIf(bo.Rule != "" && bo.Rule != "<default>", "reenc.base_matched_regular_rule")
 			vkit.S.LabelIf(bo.Captures != "", "reenc.base_has_captures")
+			vkit.S.LabelIf(withSlash, "reenc.with_encoded_slash")
 			vkit.S.NonTrivial(fmt.Sprintf("reenc|%v|%v|%s|%s|%s", rules, withDefault, entry, base, variant),
 				map[string]any{"rules": fmt.Sprint(rules), "default_rule": withDefault, "entry": entry, "base": base, "variant": variant, "observation": bo})
 
@@ -428,6 +445,32 @@ func insertSlash(t *rapid.T, path string, lower bool) string {
 	}
 
 	return path[:pos] + enc + path[pos:]
+}
+
+// decodeUnreserved decodes the escapes of unreserved characters and spells all others in upper case.
+func decodeUnreserved(s string) string {
+	var sb strings.Builder
+
+	for i := 0; i < len(s); i++ {
+		if s[i] == '%' && i+2 < len(s) {
+			if v, err := strconv.ParseUint(s[i+1:i+3], 16, 8); err == nil {
+				c := byte(v)
+				if c >= 'a' && c <= 'z' || c >= 'A' && c <= 'Z' || c >= '0' && c <= '9' || strings.IndexByte("-._~", c) >= 0 {
+					sb.WriteByte(c)
+				} else {
+					sb.WriteString(strings.ToUpper(s[i : i+3]))
+				}
+
+				i += 2
+
+				continue
+			}
+		}
+
+		sb.WriteByte(s[i])
+	}
+
+	return sb.String()
 }
 
 func upperEscapes(s string) string {
@@ -502,12 +545,22 @@ func TestEncodedSlashHandling(t *testing.T) {
 			}
 		}
 
+		// the reference works on the spelling with only the slash encoded; the request may spell further unreserved
+		// characters as escapes (before and after the encoded slash)
+		canonical := path
+		respelled := false
+
+		if rapid.Bool().Draw(t, "respell") {
+			path, respelled = reencode(t, path)
+		}
+
 		o, resp, err := observe(w, entry, path)
 		if err != nil {
 			t.Fatalf("harness: %v", err)
 		}
 
 		vkit.S.Eval()
+		vkit.S.LabelIf(respelled, "slash.other_characters_escaped_too")
 		vkit.S.Label("slash.setting=" + setting)
 		vkit.S.Label("slash.entry=" + string(entry))
 		vkit.S.LabelIf(lower, "slash.lower_case_hex")
@@ -527,7 +580,7 @@ func TestEncodedSlashHandling(t *testing.T) {
 				}
 			}
 
-			_, _, applies, _, _ := vkit.RefFind(routes, path)
+			_, _, applies, _, _ := vkit.RefFind(routes, canonical)
 
 			switch {
 			case o.Status == 400:
@@ -542,7 +595,7 @@ func TestEncodedSlashHandling(t *testing.T) {
 			return
 		}
 
-		wantRule, caps, ok, _, _ := vkit.RefFind(routes, path)
+		wantRule, caps, ok, _, _ := vkit.RefFind(routes, canonical)
 		if !ok {
 			// default rule (always rejects) or no rule
 			if resp.Positive {
@@ -614,7 +667,7 @@ func TestEncodedSlashHandling(t *testing.T) {
 
 			switch setting {
 			case "no_decode":
-				if upperEscapes(up) != upperEscapes(path) {
+				if decodeUnreserved(up) != decodeUnreserved(path) {
 					t.Fatalf("no_decode: upstream received %s for client path %s", up, path)
 				}
 			case "on":
